@@ -302,3 +302,46 @@ def rotation_lens_step(S):
     S.claim_eq('Ex', Er[0, 0], -E[1, 0])
     S.claim_eq('Ey', Er[1, 0], E[0, 0])
     S.claim_eq('Ez', Er[2, 0], E[2, 0])
+
+
+@obligation('C05.shift.translated_api', functions=['holopy.scattering.scatterer.scatterer.Scatterer.translated',
+                                                   'holopy.scattering.scatterer.composite.Scatterers.translated'],
+            timeout_s=120, nvalid=2,
+            bounds='a sphere and a 2-sphere collection with symbolic centres shifted through the library API in a chain '
+                   '(s -> s.translated(d) -> .translated(e), tuple and array-valued centres): every object of the chain '
+                   'sits at its own position afterwards (the earlier ones are not moved by the later calls)')
+def translated_api(S):
+    import holopy.scattering.scatterer.scatterer as scat_mod
+    import holopy.scattering.scatterer.composite as comp
+    from holopy.scattering.scatterer import Spheres
+    if S.sym:
+        for m in (scat_mod, comp):
+            shim_np(S, m)
+    obj = object if S.sym else float
+    c = [S.real('cx'), S.real('cy'), S.real('cz')]
+    d = [S.real('dx'), S.real('dy'), S.real('dz')]
+    e = [S.real('ex'), S.real('ey'), S.real('ez')]
+    for v in c + d + e:
+        S.assume(v != 3, 'component != 3 (fork cut in len(ensure_array(x)==3))')
+    S.observe('cx', c[0])
+    for tag, centre in (('tuple', tuple(c)), ('array', np.array(c, dtype=obj))):
+        s0 = Sphere(n=1.5, r=0.5, center=centre)
+        s1 = s0.translated(d[0], d[1], d[2])
+        s2 = s1.translated(np.array(e, dtype=obj))
+        s3 = s1.translated(e[0], e[1], e[2])
+        for ax in range(3):
+            S.claim_eq(f'{tag}.start[{ax}]', s0.center[ax], c[ax])
+            S.claim_eq(f'{tag}.first[{ax}]', s1.center[ax], c[ax] + d[ax])
+            S.claim_eq(f'{tag}.second[{ax}]', s2.center[ax], c[ax] + d[ax] + e[ax])
+            S.claim_eq(f'{tag}.second_again[{ax}]', s3.center[ax], c[ax] + d[ax] + e[ax])
+        S.claim(f'{tag}.new_objects', s1 is not s0 and s2 is not s1)
+    pair = Spheres([Sphere(n=1.5, r=0.5, center=tuple(c)), Sphere(n=1.5, r=0.5, center=(c[0] + 7, c[1], c[2]))],
+                   warn=False)
+    p1 = pair.translated(d[0], d[1], d[2])
+    p2 = p1.translated(e[0], e[1], e[2])
+    for i, off in enumerate((0, 7)):
+        for ax in range(3):
+            base = c[ax] + (off if ax == 0 else 0)
+            S.claim_eq(f'pair.start[{i},{ax}]', pair.scatterers[i].center[ax], base)
+            S.claim_eq(f'pair.first[{i},{ax}]', p1.scatterers[i].center[ax], base + d[ax])
+            S.claim_eq(f'pair.second[{i},{ax}]', p2.scatterers[i].center[ax], base + d[ax] + e[ax])
